@@ -315,6 +315,25 @@ def diagnose(records, model0, final_abs, layout):
             strict = linearizable(records, model0, final_abs, accept_diffs=only_missing)[0]
             return "store-vs-object-removal" + ("" if strict else "+store-rejected-in-progress-while-delete-holds-pid")
         return "final-state-differs:object-missing"
+    # a linearization whose final state differs only by an object LEFT on disk without references: the known
+    # mechanism 'delete_object of a pid bound to a missing object racing a store that brings the object in'
+    only_extra = lambda diffs: {d[0] for d in diffs} == {"object-unexpected"}
+    v4, order4 = linearizable(records, model0, final_abs, tolerate_store_rejected_by_delete=True, accept_diffs=only_extra)
+    if v4:
+        m = final_model(records, model0, order4)
+        m.resolve_permitted(set(final_abs.objects))
+        extra = set(m.compare(final_abs)[0][1])
+        ops = [r for r in records if "op" in r]
+        storers = [r for r in ops if r["op"]["op"] == "store" and layout.cid_of(model0.contents[r["op"]["content"]]) in extra]
+        deleters = [r for r in ops if r["op"]["op"] == "delete" and r["ok"]]
+        # the racing deleter must have been bound to that cid while its object was missing: a tag to an absent object
+        # earlier in the history (or in the start state) is the only way the public API creates that state
+        tagged_missing = any(r["op"]["op"] == "tag" and r["ok"] for r in ops) or any(
+            c not in model0.objects for c in model0.lists)
+        if tagged_missing and any(a["t0"] < b["t1"] and b["t0"] < a["t1"] for a in storers for b in deleters):
+            strict = linearizable(records, model0, final_abs, accept_diffs=only_extra)[0]
+            return "delete-of-missing-object-vs-store" + ("" if strict else "+store-rejected-in-progress-while-delete-holds-pid")
+        return "final-state-differs:object-unexpected"
     v3, _o = linearizable(records, model0, None, tolerate_store_rejected_by_delete=True)
     if v3:
         return "final-state-differs"
